@@ -179,6 +179,28 @@ func (rs Results) Emit(w http.ResponseWriter, isBatch bool) {
 
 }
 
+// applyVariableDefaults gives the variables the client left out the default values
+// its operation declares. The sub-requests are planned from the arguments' types and
+// do not carry the client's declarations, so the defaults have to travel as values.
+func applyVariableDefaults(request *requests.Request, operation *ast.OperationDefinition) {
+	for _, vd := range operation.VariableDefinitions {
+		if vd.DefaultValue == nil {
+			continue
+		}
+		if _, ok := request.Variables[vd.Variable]; ok {
+			continue
+		}
+		dv, err := vd.DefaultValue.Value(nil)
+		if err != nil {
+			continue
+		}
+		if request.Variables == nil {
+			request.Variables = make(map[string]interface{})
+		}
+		request.Variables[vd.Variable] = dv
+	}
+}
+
 // QueryHandler returns a http.HandlerFunc that should be used as the
 // primary endpoint for the gateway API. The endpoint will respond
 // to queries on POST requests. POST requests can either be
@@ -242,6 +264,8 @@ func (g *Gateway) queryHandler(w http.ResponseWriter, r *http.Request) {
 					index: index,
 				}, nil
 			}
+
+			applyVariableDefaults(request, operation)
 
 			planningContext := &planner.PlanningContext{
 				Request:    request,
